@@ -9,9 +9,9 @@ package main
 import (
 	"bufio"
 	"bytes"
+	"context"
 	"encoding/json"
 	"flag"
-	"context"
 	"fmt"
 	"net/http/httptest"
 	"os"
@@ -38,7 +38,7 @@ func (c *countStore) Dequeue(r queue.DequeueRequest) (queue.DequeueResponse, err
 	c.calls++
 	return c.qstore.Dequeue(r)
 }
-func (c *countStore) Ack(l string) error                  { c.calls++; return c.qstore.Ack(l) }
+func (c *countStore) Ack(l string) error                   { c.calls++; return c.qstore.Ack(l) }
 func (c *countStore) Nack(l string, d time.Duration) error { c.calls++; return c.qstore.Nack(l, d) }
 func (c *countStore) Extend(l string, d time.Duration) error {
 	c.calls++
